@@ -74,14 +74,17 @@ Compute(dd, d, fx) ==
 
 \* what the contract would pay d right now (claimable)
 Claimable(d) == IF del[d].ex /\ del[d].has THEN del[d].unc + RewardsFor(rew, epoch, d, del[d].a, del[d].ckpt)
-                ELSE del[d].unc
+                ELSE del[d].unc     \* = ClaimableOf(del[d], d, rew, epoch)
 
 -----------------------------------------------------------------------------
-StDel(dd) == [ex |-> dd.ex, has |-> dd.has, aok |-> dd.has, a |-> dd.a,
-              un |-> [i \in 1..Len(dd.un) |-> [ok |-> TRUE, v |-> dd.un[i].v, e |-> dd.un[i].e]],
-              unc |-> dd.unc, ckpt |-> dd.ckpt]
+\* clm = what getClaimableRewards returns for the delegator (computeAndUpdateRewards on a copy)
+ClaimableOf(dd, d, RW, ep) == IF dd.ex /\ dd.has THEN dd.unc + RewardsFor(RW, ep, d, dd.a, dd.ckpt) ELSE dd.unc
+StDel(dd, d, RW, ep) ==
+    [ex |-> dd.ex, has |-> dd.has, aok |-> dd.has, a |-> dd.a,
+     un |-> [i \in 1..Len(dd.un) |-> [ok |-> TRUE, v |-> dd.un[i].v, e |-> dd.un[i].e]],
+     unc |-> dd.unc, ckpt |-> dd.ckpt, clm |-> ClaimableOf(dd, d, RW, ep)]
 St(W) == [epoch |-> W.epoch, iof |-> W.iof, fee |-> W.fee, cap |-> W.cap, tot |-> W.tot,
-          del |-> [d \in D |-> StDel(W.del[d])], rew |-> W.rew]
+          del |-> [d \in D |-> StDel(W.del[d], d, W.rew, W.epoch)], rew |-> W.rew]
 
 Cur == [epoch |-> epoch, iof |-> iof, fee |-> fee, cap |-> cap, ccr |-> ccr, tot |-> tot, del |-> del, rew |-> rew,
         ok |-> TRUE, paid |-> 0, hv |-> hv, kd |-> FALSE]
